@@ -88,6 +88,41 @@ func (c14) Gen(r *sim.Rand, tier string, run uint64) *sim.Scenario {
 		sc.Cfg["sinkk"] = int64(r.Intn(40))
 	}
 	sc.Cfg["rc"] = int64(r.Intn(2))
+	if kind == 0 && r.Chance(1, 8) {
+		// code running up to the last byte of an attached window, with nothing attached behind
+		// it (the unattached ranges stay unattached in this variant): a tracer that reads more
+		// than the instruction's own bytes fails where the untraced run does not
+		simple := []byte{0xEA, 0xE8, 0xC8, 0x1A, 0x3A, 0x18, 0x38, 0xAA, 0xA8, 0x8A, 0x98, 0xB8}
+		var ops []sim.Op
+		total := 0
+		for i := 0; i < r.Range(1, 6); i++ {
+			ops = append(ops, sim.Op{K: "i", B: []byte{simple[r.Intn(len(simple))]}})
+			total++
+		}
+		tail := r.Intn(3)
+		switch tail {
+		case 0: // bra back to the start: last byte of the window is the displacement
+			total += 2
+			ops = append(ops, sim.Op{K: "i", B: []byte{0x80, byte(int8(-total))}})
+		case 1: // jmp abs back to the start
+			total += 3
+		default: // a one-byte instruction on the very last byte, then the window ends
+			ops = append(ops, sim.Op{K: "i", B: []byte{0x60}}) // rts
+			total++
+		}
+		win := int64(sim.PickInt(r, 0x707FFF, 0x717FFF, 0x407FFF, 0x6F7FFF))
+		start := win - int64(total) + 1
+		if tail == 1 {
+			ops = append(ops, sim.Op{K: "i", B: []byte{0x4C, byte(start), byte(start >> 8)}})
+		}
+		sc.Ops = ops
+		sc.Cfg["pc"] = start
+		sc.Cfg["nohole"] = 1
+		sc.Cfg["budget"] = int64(r.Range(10, 120))
+		sc.Cfg["target"] = 0xFFFFFF
+		sc.Cfg["e"] = 0
+		sc.Cfg["sp"] = 0x01FF
+	}
 	if kind == 1 && r.Chance(1, 5) {
 		// cpualt executing out of open bus: a 16-byte block is left unattached (reads return
 		// the bus latch Bus.M) and the program jumps to its last byte
@@ -138,10 +173,14 @@ func c14sys(sc *sim.Scenario, env *sim.Env) *sim.Violation {
 		budget = 20000
 	}
 	mkHole := func() *SimMem {
+		if sc.C("nohole") != 0 {
+			return nil // leave unattached what CreateEmulator leaves unattached
+		}
 		m := NewSimMem(env, 0, uint64(sc.C("fillseed"))^0x401e)
 		m.NoLog = true
 		return m
 	}
+	st.ProbeIf(sc.C("nohole") != 0, "code_at_end_of_attached_window")
 	// world A: traced
 	smA, err := NewSysMachine(env, 0, mkHole())
 	if err != nil {
